@@ -381,6 +381,8 @@ def replay_history(hist, tid, r, watch_all=False):
         except Crash as c:
             evs.append({"a": "Crash", "of": c.of, "exc": c.exc})
             break
+        if a["a"] == "New" and not watch_all:  # a fresh detached image: observed with its tree later (and at the end in any case)
+            continue
         touched = {real.root_of(a[k]) for k in ("n", "p", "c") if k in a and real.alive(a[k])}
         for n in (real.roots() if watch_all else sorted(touched)):
             evs.append(real.ev_validate(n))
@@ -745,7 +747,7 @@ def run(tier):
 
     # ---- all generating / model-checking TLC runs side by side
     tree_cfgs = ["BinImageTrees.cfg"] if quick else ["BinImageTrees_t3.cfg", "BinImageTrees_t4.cfg"]
-    gens = [(2, 5, None), (3, 5, 1500)] if quick else [(2, 5, None), (3, 5, None), (3, 6, 60000)]
+    gens = [(2, 5, None), (3, 5, 1000)] if quick else [(2, 5, None), (3, 5, None), (3, 6, 60000)]
     n_sim = 300 if quick else 5000
     jobs = [("mc", ("C16", "BinImageMC", "BinImageMC.cfg"), dict(env={"MC_LEVEL": 4 if quick else 5}, heap="6g", timeout=2400, workers=4 if quick else 8,
                     require_actions=("MCNew", "MCAdd", "MCAppend", "MCSetSize", "MCJoin", "MCUpdateOffsets")))]
@@ -798,7 +800,7 @@ def run(tier):
 
     def do_pack(i):
         rr = rng(PROP, "pack", i)
-        return replay_tree(packed_tree(rr, big=(i % 8 == 0)), 20000000 + i, rr,
+        return replay_tree(packed_tree(rr, big=(i % (40 if quick else 8) == 0)), 20000000 + i, rr,
                            fmt={"fmt": FMTS[i % 3], "base": BNAMES[(i // 3) % len(BNAMES)], "exec": rr.choice(EXECS)})
 
     traces = pmap(do_rand, range(n_rand), chunksize=64) + pmap(do_pack, range(n_pack), chunksize=64)
@@ -825,7 +827,7 @@ def run(tier):
     if len(sim) < n_sim // 2:
         raise Machinery(f"simulation produced only {len(sim)} behaviours\n{sim_res.out[-1500:]}")
     hists += sim
-    n_rh = 800 if quick else 30000
+    n_rh = 600 if quick else 30000
     n_hist = 0
     for k in range(0, len(hists), 60000):
         part = hists[k:k + 60000]
@@ -855,8 +857,8 @@ def run(tier):
     )
     v.cov["exhaustive"] = True
     v.cov["checker_cmd"] = "TLC BinImageMC (lemmas over histories); TLC BinImageTrees (lemmas + enumeration); TLC BinImageGen (histories); TLC BinImageTrace (decides every observation)"
-    v.cov["trusted_base"] = ("hex-pair tokenisation of file lines; Python's own text decoding for the `textlike` fact; the independent HEX/S19 encoder of the raw-file lane "
-                             "(its output is itself decoded by the TLA+ automata)")
+    v.cov["trusted_base"] = ["TLC", "hex-pair tokenisation of file lines (bytes.fromhex)", "Python's own text decoding for the `textlike` fact",
+                             "the independent HEX/S19 encoder of the raw-file lane (its output is itself decoded by the TLA+ automata before it counts)"]
     v.assumptions += [
         "an image whose own binary is longer than its explicit size is outside the domain (export() is then longer than len(); the property does not call it invalid) - never generated",
         "for an image that has both an own binary and children only len(), validate() and the children's bytes are asserted (the uncovered bytes of the own binary are free)",
